@@ -11,6 +11,10 @@ abstract syntax (tuples, picklable)
   layout     ("struct", ((name, fs)...), as_class) | ("union", ((name, fs)...), as_class)
              | ("array", fs, n) | ("flex", size, ((key, fs, off)...))
   init       ("none",) | ("int", v, style) | ("map", ((key, init)...), as_seq) | ("bits", raw)
+  slices     case["slices"] = [(path, elem_fs, n, ((start, stop, step)...), raw_indices)]: arrays of the layout (itself or nested)
+             whose data.Const and view are sliced; expected = Python list slice of the element list, elements placed by the model/Spec
+  sequences  {"layout": (struct|union, fields, True), "defaults": ((name, init)...), "ops": ((const|siginit|signal, init)...)}:
+             ONE class object declaring defaults, constructions in order; expected = Layout.const(merged_init(...)) from the driver
 """
 import os
 import random
@@ -424,6 +428,9 @@ class Env:
         return data.FlexibleLayout(l[1], {k: data.Field(self.shape(fs), off) for k, fs, off in l[2]})
 
 
+SLICE_SIM_RAWS = 3
+
+
 def describe(x):
     """a field value read from a constant or from the simulator, as the driver prints it"""
     import enum as py_enum
@@ -566,9 +573,36 @@ def observe(case):
             r["siginit"] = ("error", errkind(e), repr(e)[:120])
         consts.append(r)
     obs["consts"] = consts
+    # --- slices of array constants
+    if case.get("slices"):
+        obs["slices"] = observe_const_slices(case, obj)
     # --- simulation of views
     obs["sim"] = simulate(case, env, obj, lay)
     return obs
+
+
+def slice_result(got):
+    """what is observed of a sliced array (a data.Const: from a constant, or read from a view in simulation)"""
+    n = len(got)
+    return ("ok", n, getattr(got.shape(), "length", None), got.as_bits(), got.as_value().value,
+            [attempt(lambda i=i: got[i]) for i in range(n)])
+
+
+def observe_const_slices(case, obj):
+    out = []
+    for path, _elem, _n, keys, idx in case["slices"]:
+        rows = []
+        for key in keys:
+            row = []
+            for i in idx:
+                try:
+                    arr = follow(obj.from_bits(case["sim_raws"][i]), path)
+                    row.append(slice_result(arr[slice(*key)]))
+                except Exception as e:
+                    row.append(("error", errkind(e), repr(e)[:120]))
+            rows.append(row)
+        out.append(rows)
+    return out
 
 
 def follow(view, path):
@@ -631,7 +665,17 @@ def simulate(case, env, obj, lay):
             dyn = ("ok", arr[idx], idx)
         except Exception as e:
             dyn = ("error", errkind(e), repr(e)[:120])
-    res = {"reads": [], "tbw": [], "cw": [], "sw": [], "dyn": [], "dynw_tb": [], "dynw_proc": []}
+    # slices of array views (the first SLICE_SIM_RAWS raws of each sliced array)
+    slice_views = []
+    for path, _elem, _n, keys, _idx in case.get("slices", []):
+        vs = []
+        for key in keys:
+            try:
+                vs.append(("ok", follow(sig, path)[slice(*key)]))
+            except Exception as e:
+                vs.append(("error", errkind(e), repr(e)[:120]))
+        slice_views.append(vs)
+    res = {"reads": [], "tbw": [], "cw": [], "sw": [], "dyn": [], "dynw_tb": [], "dynw_proc": [], "slices": []}
     req = Signal(name="req")
     cmd = {}
 
@@ -669,6 +713,22 @@ def simulate(case, env, obj, lay):
                     ctx.set(dyn[2], i)
                     drow.append(attempt(lambda: ctx.get(dyn[1])))
                 res["dyn"].append(drow)
+        # slices of array views
+        for (path, _elem, _n, keys, idx), vs in zip(case.get("slices", []), slice_views):
+            rows = []
+            for v in vs:
+                row = []
+                for i in idx[:SLICE_SIM_RAWS]:
+                    if v[0] != "ok":
+                        row.append(v)
+                        continue
+                    ctx.set(Value.cast(sig), case["sim_raws"][i])
+                    try:
+                        row.append(slice_result(ctx.get(v[1])))
+                    except Exception as e:
+                        row.append(("error", errkind(e), repr(e)[:120]))
+                rows.append(row)
+            res["slices"].append(rows)
         # testbench writes through the field
         for (path, fs), cases_ in zip(case["write_paths"], case["writes"]):
             row = []
@@ -758,6 +818,86 @@ def simulate(case, env, obj, lay):
             out["rtlil"] = ("ok", "module" in text)
         except Exception as e:
             out["rtlil"] = ("error", errkind(e), repr(e)[:160])
+    return out
+
+
+def seq_observe(sc):
+    """a sequence of constructions on ONE class object (built once, never rebuilt between the calls)"""
+    import warnings
+    warnings.simplefilter("ignore")
+    from amaranth.hdl import Signal, Module, Value
+    from amaranth.lib import data
+    from amaranth.sim import Simulator
+    l, enums = sc["layout"], sc["enums"]
+    env = Env(enums)
+    obs = {}
+    try:
+        members = {n: env.shape(fs) for n, fs in l[1]}
+        descr = dict(l[1])
+        ns = {"__annotations__": dict(members)}
+        for n, dinit in sc["defaults"]:
+            ns[n] = build_init(dinit, members[n], None, descr[n], env)
+        base = data.Struct if l[0] == "struct" else data.Union
+        cls = type(base)("Seq", (base,), ns)
+        keys = [k for k, _f in data.Layout.cast(cls)]
+    except Exception as e:
+        obs["build"] = ("error", errkind(e), traceback.format_exc()[-300:])
+        return obs
+    obs["build"] = ("ok",)
+    obs["keys"] = keys
+    steps, sigs = [], []
+    for op, init in sc["ops"]:
+        try:
+            pyinit = build_init(init, cls, None, l, env)
+        except Exception as e:
+            steps.append(("harness-error", errkind(e), traceback.format_exc()[-300:]))
+            continue
+        try:
+            if op == "const":
+                c = cls.const(pyinit)
+                steps.append(("ok", c.as_bits(), [attempt(lambda k=k: c[k]) for k in keys]))
+            else:
+                s = Signal(cls, init=pyinit) if op == "siginit" else Signal(cls)
+                steps.append(("ok", Value.cast(s).init, len(sigs)))
+                sigs.append(s)
+        except Exception as e:
+            steps.append(("error", errkind(e), repr(e)[:120]))
+    obs["steps"] = steps
+    # the registers' reset values and their fields, in simulation
+    simres = []
+    m = Module()
+    m.d.sync += Signal(name="dummy").eq(1)
+    for j, s in enumerate(sigs):
+        m.d.sync += Value.cast(s).eq(Value.cast(s))
+
+    async def tb(ctx):
+        for s in sigs:
+            try:
+                whole = ctx.get(Value.cast(s))
+            except Exception as e:
+                simres.append(("error", errkind(e), repr(e)[:120]))
+                continue
+            simres.append(("ok", whole, [attempt(lambda k=k: ctx.get(s[k])) for k in keys]))
+    try:
+        from amaranth.sim import Period
+        sim = Simulator(m)
+        sim.add_clock(Period(MHz=1))
+        sim.add_testbench(tb)
+        sim.run()
+        obs["run"] = ("ok",)
+    except Exception as e:
+        obs["run"] = ("error", errkind(e), traceback.format_exc()[-300:])
+    obs["sim"] = simres
+    return obs
+
+
+def seq_job(scs):
+    out = []
+    for sc in scs:
+        try:
+            out.append(seq_observe(sc))
+        except Exception as e:
+            out.append({"crash": (errkind(e), traceback.format_exc()[-600:])})
     return out
 
 
@@ -894,6 +1034,241 @@ def enum_job(jobs):
                     r["rtlil"] = ("error", errkind(ex), repr(ex)[:160])
         out.append(r)
     return out
+
+
+# ------------------------------------------------------------------------------------------------
+# slices of array constants and array views (generator side)
+
+def gen_slice_key(rng, n):
+    """(start, stop, step) of a Python slice for an array of n elements: mostly |step| >= 2, open ends,
+    negative and out-of-range bounds; two thirds of the keys have their bounds on the sides the step walks between
+    (so that most keys select something), the rest takes any two bounds"""
+    low = [None, None, 0, 0, 1, 2, -n, -n - 1, -n + 1, n // 2]
+    high = [None, None, n, n - 1, n - 2, n + 1, n + 3, -1, -2, n // 2 + 1]
+    r = rng.random()
+    if r < 0.62:
+        step = rng.choice([2, -2, 2, -2, 3, -3, 3, -3, 4, -4, 5, -5])
+    elif r < 0.80:
+        step = rng.choice([None, 1])
+    else:
+        step = -1
+    if rng.random() < 0.67:
+        a, b = rng.choice(low), rng.choice(high)
+        return (a, b, step) if (step is None or step > 0) else (b, a, step)
+    return (rng.choice(low + high), rng.choice(low + high), step)
+
+
+def all_slice_keys(n):
+    bounds = [None, 0, 1, 2, n - 1, n, n + 2, -1, -2, -n, -n - 1]
+    return [(a, b, s) for a in bounds for b in bounds for s in (None, -1, 2, -2, 3, -3, 4)]
+
+
+def slice_class(key, n):
+    """which kind of selection the key makes on n elements (histogram key; also decides the one tolerated raise)"""
+    start, stop, stride = slice(*key).indices(n)
+    cnt = len(range(start, stop, stride))
+    if stride == 1 and stop < start:
+        return "unit_step_reversed_bounds"
+    if cnt == 0:
+        return "empty"
+    if stride == 1:
+        return "unit_step"
+    if stride == -1:
+        return "step_-1"
+    return "strided_span_multiple_of_step" if (stop - start) % stride == 0 else "strided_span_not_multiple_of_step"
+
+
+def add_slices(rng, case, n_keys=6, n_arrays=2, all_keys=False):
+    """choose arrays of the case's layout (the layout itself, or reached through a field path that is among the
+    simulated read paths) and slice keys for them; case["slices"] = [(path, elem_fs, n, keys, raw_indices)] where
+    raw_indices index case["sim_raws"]; the first few of them are also read through a view in simulation"""
+    l, enums = case["layout"], case["enums"]
+    cands = [((), l)] if l[0] == "array" else []
+    readable = set(map(tuple, case["read_paths"]))
+    cands += [(tuple(p), fs) for p, fs in all_paths(l, enums) if fs[0] == "array" and tuple(p) in readable]
+    out = []
+    if cands:
+        rng.shuffle(cands)
+        # an array with at least three elements first, when there is one (a strided slice needs something to skip)
+        cands.sort(key=lambda c: c[1][2] < 3)
+        for path, arr in cands[:n_arrays]:
+            n = arr[2]
+            if all_keys:
+                keys = all_slice_keys(n)
+            else:
+                keys = []
+                for _ in range(n_keys * 3):
+                    k = gen_slice_key(rng, n)
+                    if k not in keys:
+                        keys.append(k)
+                    if len(keys) >= n_keys:
+                        break
+            nraw = len(case["sim_raws"])
+            idx = sorted(rng.sample(range(nraw), min(nraw, 4 if all_keys else 6)))
+            out.append((path, arr[1], n, keys, idx))
+    case["slices"] = out
+
+
+def ser_path(p):
+    return "(" + " ".join(ser_key(k) for k in p) + ")"
+
+
+def slice_requests1(case):
+    """first round: the placement of every sliced array layout (element offsets and widths: model and spec)"""
+    return [f"(layout (array {ser_fs(elem, case['enums'])} {n}))" for _p, elem, n, _k, _i in case.get("slices", [])]
+
+
+def slice_array_bits(case, resps, a):
+    """the bit pattern of sliced array number a for each of its raws, according to the Spec reading of the path
+    (the model's reading of the same path is compared with it by the ordinary read-path comparison)"""
+    path, _elem, _n, _keys, idx = case["slices"][a]
+    raws = [case["sim_raws"][i] for i in idx]
+    if not path:
+        return raws
+    j = [tuple(p) for p in case["read_paths"]].index(tuple(path))
+    base = 2 + len(case["inits"])
+    parts = resps[base + j].split(" ; ")[1:]
+    out = []
+    for i in idx:
+        sp = common.kv(parts[i])["sp"]
+        out.append(int(sp[1:]) if sp.startswith("c") else None)
+    return out
+
+
+def slice_requests2(case, resps):
+    """second round: every element of the sliced arrays, read from the bits found in the first round"""
+    reqs = []
+    for a, (_p, elem, n, _k, _i) in enumerate(case.get("slices", [])):
+        bits = slice_array_bits(case, resps, a)
+        reqs.append(f"(read (array {ser_fs(elem, case['enums'])} {n}) " + " ".join(str(b if b is not None else 0) for b in bits) + ")")
+    return reqs
+
+
+# ------------------------------------------------------------------------------------------------
+# sequences of constructions on ONE Struct/Union class that declares field defaults (generator side)
+
+def gen_seq_init(rng, kind, fields, enums):
+    r = rng.random()
+    if r < 0.07:
+        return ("none",)
+    if r < 0.12:
+        size = layout_size((kind, fields, True), enums)
+        return ("bits", rng.getrandbits(size) if size else 0)
+    if kind == "union":
+        k = 1 if rng.random() < 0.85 else (0 if rng.random() < 0.7 else 2)
+        chosen = rng.sample(list(fields), min(k, len(fields)))
+    else:
+        p = rng.choice([0.2, 0.4, 0.4, 0.6])
+        chosen = [f for f in fields if rng.random() < p]
+        rng.shuffle(chosen)
+    kvs = [(nm, gen_value(rng, fs, enums, 0.0)) for nm, fs in chosen]
+    if rng.random() < 0.04:
+        kvs.append(("nosuch", ("int", 0, "int")))
+    return ("map", tuple(kvs), False)
+
+
+def make_seq_case(rng):
+    enums = []
+    kind = "struct" if rng.random() < 0.8 else "union"
+    for _ in range(40):
+        enums.clear()
+        n = rng.choice([1, 2, 2, 3, 3, 4, 5])
+        names = rng.sample(NAMES, n)
+        depth = rng.choice([0, 0, 1, 1, 2])
+        fields = tuple((nm, gen_fs(rng, depth, enums, None)) for nm in names)
+        if layout_size((kind, fields, True), enums) <= 64:
+            break
+    if kind == "struct":
+        dflt = [(nm, fs) for nm, fs in fields if rng.random() < 0.6]
+        if not dflt and rng.random() < 0.85:
+            dflt = [rng.choice(fields)]
+    else:
+        dflt = [rng.choice(fields)] if rng.random() < 0.7 else []
+    defaults = tuple((nm, gen_value(rng, fs, enums, 0.0)) for nm, fs in dflt)
+    ops = []
+    for _ in range(rng.randint(3, 7)):
+        r = rng.random()
+        if r < 0.42:
+            ops.append(("const", gen_seq_init(rng, kind, fields, enums)))
+        elif r < 0.80:
+            ops.append(("siginit", gen_seq_init(rng, kind, fields, enums)))
+        else:
+            ops.append(("signal", ("none",)))
+    return {"layout": (kind, fields, True), "enums": list(enums), "defaults": defaults, "ops": ops,
+            "size": layout_size((kind, fields, True), enums)}
+
+
+SEQ_CORPUS = [
+    # the documented way of declaring reset values: a header with three defaults; later calls leave out earlier fields
+    {"layout": ("struct", (("kind", ("p", 3, False, "fn")), ("delta", ("p", 4, True, "fn")), ("flag", ("p", 1, False, "fn")),
+                           ("tag", ("p", 8, False, "fn"))), True), "enums": [],
+     "defaults": (("kind", ("int", 5, "int")), ("delta", ("int", -2, "int")), ("tag", ("int", 0xA5, "int"))),
+     "ops": [("const", ("none",)), ("siginit", ("map", (("flag", ("int", 1, "int")),), False)),
+             ("const", ("map", (("kind", ("int", 2, "int")), ("delta", ("int", 7, "int"))), False)),
+             ("const", ("map", (("tag", ("int", 60, "int")),), False)), ("signal", ("none",)),
+             ("siginit", ("map", (), False)), ("const", ("map", (("delta", ("int", 1, "int")),), False))]},
+    {"layout": ("union", (("a", ("p", 4, False, "int")), ("b", ("p", 2, True, "fn"))), True), "enums": [],
+     "defaults": (("a", ("int", 9, "int")),),
+     "ops": [("const", ("map", (("b", ("int", -1, "int")),), False)), ("signal", ("none",)), ("const", ("map", (), False)),
+             ("siginit", ("map", (("a", ("int", 3, "int")),), False)), ("const", ("none",))]},
+]
+
+
+SLICE_CORPUS = [
+    # array layouts sliced with every key of all_slice_keys (constants and views)
+    {"layout": ("array", ("p", 4, False, "fn"), 5), "enums": []},
+    {"layout": ("array", ("p", 3, True, "fn"), 4), "enums": []},
+    {"layout": ("array", ("struct", (("a", ("p", 2, True, "fn")), ("b", ("p", 3, False, "fn"))), False), 5), "enums": []},
+    {"layout": ("struct", (("h", ("p", 3, False, "fn")), ("arr", ("array", ("enum", 0), 7))), False),
+     "enums": [("e", 2, False, (("A", 0), ("B", 1), ("C", 3)))]},
+]
+
+
+def merged_init(kind, defaults, init):
+    """the initialiser one call denotes: the declared defaults overridden by exactly the fields THIS call names (a union
+    class takes the call's field if it names one, its single default otherwise); computed on the abstract syntax"""
+    if init[0] == "bits":
+        return init
+    named = init[1] if init[0] == "map" else ()
+    if kind == "union":
+        return ("map", tuple(named) if named else tuple(defaults), False)
+    d = dict(defaults)
+    for k, v in named:
+        d[k] = v
+    return ("map", tuple(d.items()), False)
+
+
+def leaves_out_earlier(ops, i):
+    """does call i leave out a field that an earlier call on the same class named?"""
+    def named(init):
+        return {k for k, _v in init[1]} if init[0] == "map" else set()
+    if ops[i][1][0] == "bits":
+        return False
+    earlier = set()
+    for _op, init in ops[:i]:
+        earlier |= named(init)
+    return bool(earlier - named(ops[i][1]))
+
+
+def seq_requests1(sc):
+    L = ser_layout(sc["layout"], sc["enums"])
+    return [f"(layout {L})"] + [f"(const {L} {ser_init(merged_init(sc['layout'][0], sc['defaults'], init))})" for _op, init in sc["ops"]]
+
+
+def seq_expected(resp):
+    d = common.kv(resp)
+    mm = d["model"].split(":")
+    model = ("ok", int(mm[1])) if mm[0] == "ok" else ("err", mm[1])
+    spec = ("ok", int(d["spec"])) if d["spec"] != "-" and mm[0] == "ok" else model
+    return model, spec
+
+
+def seq_requests2(sc, resps):
+    """second round: the fields of every expected constant"""
+    L = ser_layout(sc["layout"], sc["enums"])
+    bits = [seq_expected(r)[1] for r in resps[1:]]
+    bits = [b[1] for b in bits if b[0] == "ok"]
+    return [f"(read {L} " + " ".join(str(b) for b in bits) + ")"] if bits else []
 
 
 # ------------------------------------------------------------------------------------------------
@@ -1044,7 +1419,7 @@ def requests_for(case):
         for i, sub, _fs, cs in case["dyn_writes"]:
             reqs.append(f"(write {L} ({' '.join(ser_key(k) for k in prefix + (i,) + tuple(sub))}) " +
                         " ".join(f"({raw} {v})" for raw, v in cs) + ")")
-    return reqs
+    return reqs + slice_requests1(case)          # the slice requests stay LAST (judge_slices takes them from the tail)
 
 
 class Judge:
@@ -1262,6 +1637,159 @@ def judge_layout(chk, case, obs, resps):
             J.differ("rtlil.convert of a design using the views", case, sim["rtlil"][1], "ok", "ok", {"detail": detail}, cls)
 
 
+def fmt_slice(key):
+    return ":".join("" if x is None else str(x) for x in key)
+
+
+def judge_slices(chk, case, obs, resps, elem_rs):
+    """slices of array constants and of array views: len, the layout's length, the bits, the value and every element are
+    those of the Python list slice of the element list (elements placed by the Lean model / the Spec)"""
+    if "slices" not in obs or not case.get("slices"):
+        return
+    J = Judge(chk)
+    enums = case["enums"]
+    lay_rs = resps[len(resps) - len(case["slices"]):]
+    sim = obs.get("sim", {})
+    sim_rows = sim.get("slices") if sim.get("run", ("",))[0] == "ok" else None
+    for a, (path, elem, n, keys, idx) in enumerate(case["slices"]):
+        d = common.kv(lay_rs[a])
+        m_it = [(int(t.split(":")[2]), int(t.split(":")[3])) for t in lifted_tokens(d["iter"])]
+        s_it = list(zip([int(x) for x in lifted_tokens(d["soffs"])], [w for _o, w in m_it]))
+        if len(m_it) != n or len(s_it) != n:
+            chk.not_shown("model: an array layout does not have one field per element", {"layout": lay_rs[a], "n": n})
+            continue
+        ew = m_it[0][1] if m_it else fs_width(elem, enums)
+        bits_per_raw = slice_array_bits(case, resps, a)
+        per_raw = elem_rs[a].split(" ; ")
+        signed_enum_elem = elem[0] == "enum" and enums[elem[1]][2]
+        chk.hist("slice_array_length", n)
+        chk.hist("slice_array_where", "the layout itself" if not path else f"nested at depth {len(path)}")
+        chk.hist("slice_elem_kind", elem[0] + (" (width 0)" if ew == 0 else ""))
+        for kk, key in enumerate(keys):
+            idxs = list(range(n))[slice(*key)]
+            klass = slice_class(key, n)
+            chk.hist("slice_class", klass)
+            chk.hist("slice_step", key[2])
+            chk.hist("slice_open_ends", (key[0] is None) + (key[1] is None))
+            chk.hist("slice_bound_out_of_range", any(b is not None and not (-n <= b <= n) for b in key[:2]))
+            chk.hist("slice_selected_elements", len(idxs))
+            chk.distinct(("slice", ser_layout(case["layout"], enums), path, key), nontrivial=klass.startswith("strided"))
+            for rr, i in enumerate(idx):
+                arrbits = bits_per_raw[rr]
+                if arrbits is None:
+                    continue
+                dd = common.kv(per_raw[rr])
+                toks = {t: lifted_tokens(dd[t]) for t in ("mc", "mv", "sp")}
+
+                def expect(it, tk):
+                    bits = 0
+                    for j, e in enumerate(idxs):
+                        off, w = it[e]
+                        bits |= ((arrbits >> off) & ((1 << w) - 1)) << it[j][0]
+                    return ("ok", len(idxs), len(idxs), bits, bits, [toks[tk][e] for e in idxs])
+                ex = {"raw": case["sim_raws"][i], "path": list(path), "slice": fmt_slice(key), "array_bits": arrbits,
+                      "array_length": n, "selected_elements": idxs}
+                for how, rows, mtk, tolerated in (("constant", obs["slices"], "mc", "ValueError"),
+                                                  ("view in simulation", sim_rows, "mv", "IndexError")):
+                    if rows is None or (how != "constant" and rr >= SLICE_SIM_RAWS):
+                        continue
+                    got = rows[a][kk][rr]
+                    chk.count(1)
+                    chk.hist("slice_checks", how)
+                    if got[0] != "ok":
+                        if klass == "unit_step_reversed_bounds" and ew > 0 and got[1] == tolerated:
+                            # candidate finding (not part of the property's text): a unit-step slice whose bounds are
+                            # reversed raises instead of selecting nothing
+                            chk.hist("slice_unit_step_reversed_bounds", f"{how}: raises {got[1]}")
+                            continue
+                        impl = ("err", got[1])
+                        exd = dict(ex, detail=got[2])
+                    else:
+                        impl = tuple(got[:6])
+                        exd = ex
+                        if klass == "unit_step_reversed_bounds":
+                            chk.hist("slice_unit_step_reversed_bounds", f"{how}: selects nothing")
+                    spec = expect(s_it, "sp")
+                    cls = [F12] if (signed_enum_elem and impl[0] == "ok" and impl[:5] == spec[:5] and impl != spec) else []
+                    J.cmp(f"slice of an array {how} (len, layout length, as_bits, as_value, elements) at path {list(path)} "
+                          f"key {fmt_slice(key)}", case, impl, expect(m_it, mtk), spec, exd, cls)
+
+
+def judge_seq(chk, sc, obs, resps1, resps2):
+    """every construction of a sequence on one class gives the constant of the declared defaults overridden by exactly the
+    fields this call names (Lean: Layout.const of the merged initialiser), whatever was constructed before"""
+    J = Judge(chk)
+    l, enums = sc["layout"], sc["enums"]
+    kind, ops = l[0], sc["ops"]
+    L = ser_layout(l, enums)
+    if "crash" in obs:
+        chk.not_shown("harness worker crashed", {"layout": repr(l), "crash": obs["crash"]})
+        return
+    signed_enum = has_signed_enum_field(l, enums)
+    any_left_out = any(leaves_out_earlier(ops, i) for i in range(len(ops)))
+    chk.hist("seq_class_kind", kind)
+    chk.hist("seq_defaults_declared", len(sc["defaults"]))
+    chk.hist("seq_length", len(ops))
+    chk.hist("seq_has_call_leaving_out_field_named_earlier", any_left_out)
+    chk.distinct(("seq", L, repr(sc["defaults"]), repr(ops)), nontrivial=bool(sc["defaults"]) and any_left_out)
+    base_ex = {"class_defaults": {k: ser_init(v) for k, v in sc["defaults"]}, "class_kind": kind}
+    if obs["build"][0] != "ok":
+        chk.count(1)
+        J.differ("class with field defaults: construction", sc, obs["build"][1], "ok", "ok", dict(base_ex, detail=obs["build"][2]))
+        return
+    exp = [seq_expected(r) for r in resps1[1:]]
+    reads = resps2[0].split(" ; ") if resps2 else []
+    ri = 0
+    for i, ((op, init), st, (model, spec)) in enumerate(zip(ops, obs["steps"], exp)):
+        rd = None
+        if spec[0] == "ok":
+            rd = common.kv(reads[ri])
+            ri += 1
+        chk.count(1)
+        merged = merged_init(kind, sc["defaults"], init)
+        left_out = leaves_out_earlier(ops, i)
+        chk.hist("seq_op", {"const": "S.const(init)", "siginit": "Signal(S, init=...)", "signal": "Signal(S)"}[op])
+        chk.hist("seq_call_leaves_out_field_named_earlier", left_out)
+        chk.hist("seq_call_init", init[0] if init[0] != "map" else f"names {len(init[1])} field(s)")
+        ex = dict(base_ex, call=i + 1, op=op, init=ser_init(init), expected_initialiser=ser_init(merged),
+                  calls=[(o, ser_init(x)) for o, x in ops[:i + 1]], leaves_out_field_named_earlier=left_out)
+        if st[0] == "harness-error":
+            chk.not_shown("harness could not build an initialiser", {"layout": L, "init": ser_init(init), "detail": st[2]})
+            continue
+        impl = ("ok", st[1]) if st[0] == "ok" else ("err", st[1])
+        chk.hist("seq_outcome", impl[0] if impl[0] == "ok" else impl[1])
+        model_e, spec_e = model, spec
+        if op != "const" and model[0] != "ok":
+            model_e = spec_e = ("err", "TypeError")
+        cls = []
+        if impl == ("err", "TypeError") and bare_union_gets_bits(l, merged):
+            cls.append(F11)
+        if impl == ("err", "TypeError") and op != "const" and signed_enum:
+            cls.append(F12)
+        opname = {"const": "S.const(init).as_bits()", "siginit": "Signal(S, init=init).init", "signal": "Signal(S).init"}[op]
+        J.cmp(f"construction sequence on one {kind} class with field defaults (call {i + 1}: {opname})", sc, impl, model_e, spec_e, ex, cls)
+        if st[0] != "ok" or rd is None:
+            continue
+        mc, mv, sp = lifted_tokens(rd["mc"]), lifted_tokens(rd["mv"]), lifted_tokens(rd["sp"])
+        fl = fields_of(l, enums)
+
+        def fcls(got, want):
+            return [F12] if any(g != w and fs[0] == "enum" and enums[fs[1]][2] for g, w, (_k, fs, _o, _w) in zip(got, want, fl)) else []
+        if op == "const":
+            chk.count(1)
+            J.cmp(f"fields read back from the constant of a construction sequence (call {i + 1})", sc, list(st[2]), mc, sp, ex, fcls(st[2], sp))
+        elif obs.get("run", ("",))[0] == "ok" and st[2] < len(obs["sim"]):
+            sr = obs["sim"][st[2]]
+            chk.count(1)
+            if sr[0] != "ok":
+                J.differ(f"simulated reset value of the register of a construction sequence (call {i + 1})", sc, "err:" + sr[1], spec[1], spec[1], ex)
+            else:
+                J.cmp(f"simulated reset value of the register of a construction sequence (call {i + 1})", sc, sr[1], model[1], spec[1], ex)
+                J.cmp(f"simulated fields of the register of a construction sequence (call {i + 1})", sc, list(sr[2]), mv, sp, ex, fcls(sr[2], sp))
+    if obs.get("run", ("ok",))[0] != "ok":
+        J.differ("simulation of the registers of a construction sequence", sc, obs["run"][1], "ok", "ok", dict(base_ex, detail=obs["run"][2]))
+
+
 def judge_enum(chk, job, r, resps):
     e, values, pairs, _ = job
     kind, w, s, members = e
@@ -1403,6 +1931,18 @@ def run(chk):
         depth = rng.choice([1, 2, 2, 3, 3, 4, 4])
         cases.append(make_case(rng, depth, rtlil=(i % (6 if quick else 10) == 0)))
     enum_jobs = [make_enum_job(rng, rtlil=(i % 5 == 0)) for i in range(n_enums)]
+    # generated after everything above so that the older streams of a seed stay what they were:
+    # slice keys for the arrays of the cases, array layouts sliced with every key, construction sequences on one class
+    n_seqs = int(os.environ.get("VERIF_C15_SEQS", 500 if quick else 6000))
+    for c in cases:
+        add_slices(rng, c)
+    for entry in SLICE_CORPUS:
+        c = corpus_case(rng, entry)
+        c["rtlil"] = False
+        add_slices(rng, c, all_keys=True)
+        cases.append(c)
+    seq_cases = [dict(sc, size=layout_size(sc["layout"], sc["enums"])) for sc in SEQ_CORPUS]
+    seq_cases += [make_seq_case(rng) for _ in range(n_seqs)]
     # driver
     reqs, spans = [], []
     for c in cases:
@@ -1414,26 +1954,65 @@ def run(chk):
         r = enum_requests(j)
         espans.append((len(reqs), len(reqs) + len(r)))
         reqs += r
+    sspans = []
+    for sc in seq_cases:
+        r = seq_requests1(sc)
+        sspans.append((len(reqs), len(reqs) + len(r)))
+        reqs += r
     with ProcessPoolExecutor(max_workers=workers) as ex:
         fut_l = [ex.submit(layout_job, ch) for ch in chunks(cases, 12)]
         fut_e = [ex.submit(enum_job, ch) for ch in chunks(enum_jobs, 12)]
+        fut_s = [ex.submit(seq_job, ch) for ch in chunks(seq_cases, 25)]
         resps = chk.driver.ask(reqs)
         bad = [(q, r) for q, r in zip(reqs, resps) if r.startswith("error")]
         if bad:
             raise common.Infra(f"driver rejected a request: {bad[0][0][:300]} -> {bad[0][1]}")
+        # second round: requests that are made of first-round answers (the bits of nested arrays, the expected constants)
+        reqs2, spans2, sspans2 = [], [], []
+        for c, (a, b) in zip(cases, spans):
+            r = slice_requests2(c, resps[a:b])
+            spans2.append((len(reqs2), len(reqs2) + len(r)))
+            reqs2 += r
+        for sc, (a, b) in zip(seq_cases, sspans):
+            r = seq_requests2(sc, resps[a:b])
+            sspans2.append((len(reqs2), len(reqs2) + len(r)))
+            reqs2 += r
+        resps2 = chk.driver.ask(reqs2)
+        bad = [(q, r) for q, r in zip(reqs2, resps2) if r.startswith("error")]
+        if bad:
+            raise common.Infra(f"driver rejected a request: {bad[0][0][:300]} -> {bad[0][1]}")
         obs = [o for f in fut_l for o in f.result()]
         eobs = [o for f in fut_e for o in f.result()]
+        sobs = [o for f in fut_s for o in f.result()]
     n_exh = 0
-    for c, o, (a, b) in zip(cases, obs, spans):
+    for c, o, (a, b), (a2, b2) in zip(cases, obs, spans, spans2):
         judge_layout(chk, c, o, resps[a:b])
+        judge_slices(chk, c, o, resps[a:b], resps2[a2:b2])
         n_exh += 1 if c["exhaustive"] else 0
     for j, o, (a, b) in zip(enum_jobs, eobs, espans):
         judge_enum(chk, j, o, resps[a:b])
+    for sc, o, (a, b), (a2, b2) in zip(seq_cases, sobs, sspans, sspans2):
+        judge_seq(chk, sc, o, resps[a:b], resps2[a2:b2])
+    for sc in seq_cases[len(SEQ_CORPUS):len(SEQ_CORPUS) + 2]:
+        chk.sample({"class": ser_layout(sc["layout"], sc["enums"]), "defaults": {k: ser_init(v) for k, v in sc["defaults"]},
+                    "calls": [(o, ser_init(x)) for o, x in sc["ops"]]}, limit=8)
+    for c in [c for c in cases[len(CORPUS):] if c.get("slices")][:2]:
+        chk.sample({"layout": ser_layout(c["layout"], c["enums"]),
+                    "slices": [(list(p), n, [fmt_slice(k) for k in keys]) for p, _e, n, keys, _i in c["slices"]]}, limit=10)
     for c in cases[len(CORPUS):len(CORPUS) + 3]:
         chk.sample({"layout": ser_layout(c["layout"], c["enums"]), "raws": len(c["raws"]), "inits": [ser_init(i) for i in c["inits"][:2]]})
     chk.extra["exhaustive"] = {"layouts_with_all_bit_patterns": n_exh, "rule": "every raw pattern when size <= 10 bits, else 24 random ones plus all-zeros and all-ones",
                                "enum_values": "every value of the enumeration's shape plus one below and one above",
                                "flag_pairs": "all pairs of valid member combinations when there are at most 8, else 48 random pairs"}
+    ru = chk.extra.get("distribution", {}).get("slice_unit_step_reversed_bounds")
+    if ru:
+        chk.extra["candidate_finding_reversed_unit_step_slice"] = {
+            "what": "a unit-step slice with reversed bounds of an array constant / view with elements wider than 0 bits raises "
+                    "instead of selecting nothing like a Python sequence (and like the same slice with 0-bit elements); the "
+                    "property's text does not speak of slices that select no element, so this is counted, not judged",
+            "example": "data.ArrayLayout(unsigned(4), 5).from_bits(0xABCDE)[3:1] -> ValueError('negative shift count'); "
+                       "Signal(data.ArrayLayout(unsigned(4), 5))[3:1] -> IndexError('Slice start 12 must be less than slice stop 4')",
+            "counts": dict(ru)}
     chk.cov["rule"] = ("random layout trees (struct/union/array/flexible, depth <= 4, plain signed/unsigned fields incl. width 0, "
                        "shaped Enum/Flag fields incl. signed ones, Struct/Union classes, flexible layouts with gaps and overlaps) built "
                        "from an abstract syntax; per layout: placement, from_bits/as_bits/as_value/const(from_bits) and every field for "
@@ -1441,13 +2020,26 @@ def run(chk):
                        "every field path incl. a dynamic array index, testbench/comb/sync writes through 6 field paths, testbench and "
                        "process writes through the element (and fields at every offset inside it) of an array indexed with a signal, RTLIL conversion of "
                        "every 6th design; separately shaped Enum/Flag classes: const/from_bits of every value, & | ^ ~ on flag views "
-                       "(circuit and testbench) against Python's enum.Flag. distinct = serialised layout / class; non-trivial = size > 0 and has fields")
+                       "(circuit and testbench) against Python's enum.Flag. distinct = serialised layout / class; non-trivial = size > 0 and has fields. "
+                       "Slices: for up to 2 arrays of every layout (the layout itself or nested, any length incl. 0 and 1, any element) 6 slice "
+                       "keys (62% with |step| >= 2, negative steps, open ends, negative and out-of-range bounds) applied to the data.Const of "
+                       "6 raw patterns and to the view in simulation for 3 of them: len, layout length, as_bits, as_value and every element "
+                       "against the Python list slice of the element list placed by the Lean model/Spec; 4 array layouts with every key of a "
+                       "grid of bounds x steps (distinct = layout, path, key; non-trivial = |step| >= 2 selecting something). "
+                       "Construction sequences: Struct/Union CLASSES declaring field defaults, built once, then 3-7 calls "
+                       "(S.const(init) / Signal(S, init=init) / Signal(S)) on the same class object, each compared (bits, fields read back, "
+                       "simulated reset value and fields) with Layout.const of the defaults overridden by exactly the fields this call names "
+                       "(distinct = class, defaults, calls; non-trivial = declares a default and some call leaves out a field named earlier)")
     chk.assumptions += [
         "Flag classes have unsigned shapes and every member value fits the declared shape (no truncation warning)",
         "Flag classes with multi-bit members over bits that have no single-bit member are exercised in the flag stream on member "
         "combinations only (not as layout fields: Python accepts some and rejects other partial patterns of such members)",
         "RTLIL is only checked to elaborate; its behaviour is C04's subject",
-        "Struct/Union classes are generated without default field values",
+        "Struct/Union classes nested in the layout trees are generated without default field values; defaults are declared by the "
+        "top-level class of the construction-sequence stream only (a nested field that a call leaves out is all-zero in amaranth, "
+        "whatever the nested class declares: not part of the property's text, not checked)",
+        "a unit-step slice with reversed bounds (c[3:1]) of an array constant / view whose elements are wider than 0 bits may raise "
+        "(ValueError / IndexError) instead of selecting nothing: counted in distribution.slice_unit_step_reversed_bounds, not judged",
         "an array view is indexed with a signal only when its elements are wider than 0 bits (word_select rejects stride 0)",
         "negative initialisers of Flag classes (Python maps -1 to 'all flags') are not exercised",
     ]
